@@ -170,4 +170,5 @@ func registerIntrinsics(vm *VM) {
 	registerSyncMap(vm)
 	registerSyncPrims(vm)
 	registerAtomic(vm)
+	registerSyncPool(vm)
 }
